@@ -448,10 +448,14 @@ func extractFlags(repo string) (*flagFacts, error) {
 	}
 	// the body as it stands never looks at its argument: f.v keeps its zero value, so FalseFunc runs
 	const asIs = `f.v = strconv.FormatBool(f.v) == "true" ;; if !f.v { if f.FalseFunc != nil { f.FalseFunc(); }; return nil; } ;; if f.TrueFunc != nil { f.TrueFunc(); } ;; return nil`
+	// repaired (fix 5d51052 in /repo): the argument is parsed with strconv.ParseBool, a malformed one is an error
+	const parsed = `v, err := strconv.ParseBool(s) ;; if err != nil { return err; } ;; f.v = v ;; if !f.v { if f.FalseFunc != nil { f.FalseFunc(); }; return nil; } ;; if f.TrueFunc != nil { f.TrueFunc(); } ;; return nil`
 	if b == asIs {
 		fx.BoolFuncIgnoresArg = true
+	} else if b == parsed {
+		fx.BoolFuncIgnoresArg = false
 	} else {
-		return nil, fmt.Errorf("BoolFuncFlag.Set: unexpected body (the model mirrors the version that ignores its argument): %s", b)
+		return nil, fmt.Errorf("BoolFuncFlag.Set: unexpected body (the model knows the version that ignores its argument and the one that parses it with strconv.ParseBool): %s", b)
 	}
 	return fx, nil
 }
@@ -532,8 +536,8 @@ structure Reg where
 	w("/-- RegisterServerConfigFlags -/\ndef server : List Reg := %s\n\n", leanRegList(fx.Server, "  "))
 	w("/-- WordSepNormalizeFunc: every byte `normFrom` of a flag name is replaced by `normTo` -/\n")
 	w("def normFrom : Nat := %d\ndef normTo : Nat := %d\n\n", fx.NormFrom[0], fx.NormTo[0])
-	w("/-- BoolFuncFlag.Set as it stands computes `f.v = strconv.FormatBool(f.v) == \"true\"`: the argument is\n")
-	w("    never read, f.v stays false, TrueFunc never runs -/\ndef boolFuncIgnoresArg : Bool := %v\n\n", fx.BoolFuncIgnoresArg)
+	w("/-- BoolFuncFlag.Set of the pinned tree computed `f.v = strconv.FormatBool(f.v) == \"true\"`: the argument\n")
+	w("    was never read, f.v stayed false, TrueFunc never ran (true); the repaired body parses it (false) -/\ndef boolFuncIgnoresArg : Bool := %v\n\n", fx.BoolFuncIgnoresArg)
 	w("end Flags\nend Gen\nend Frp\n")
 	return b.String()
 }
